@@ -41,6 +41,10 @@ C11_SYSCTL = (" Sysctl part: the same enumerations (depth <= 3), the 1..300 reco
               "\"N\\n\", cannot create files), injects the scripted permission / not-exist / I/O failures and logs in the format of the recording State, "
               "so the same host-state oracle applies; any other path, key or value, or a final file content different from the last successful write, is a violation.")
 E2E_RULE = {
+    "C11": (" Whole-process part (24 / 1200 cases, every mode of the whole-process generator: signals, a signal before Serve, missing and late interfaces, fatal and "
+            "recoverable receive errors): when the process has ended every connection it opened was closed exactly once and left its group at most once, never two "
+            "open at a time per interface, the autoconf setting of an advertising interface was written as (disable, restore previous value) once per connection, "
+            "and that of other interfaces never."),
     "C10": (" Whole-process part (24 / 1200 cases): a permission-class receive error on one interface's connection (the process must exit with status 1, nothing is "
             "re-dialled), a recoverable one (ENETDOWN) on the first connection (exactly one re-dial of that interface, the failed connection closed once and before "
             "its successor is opened, nothing written to it afterwards, no other interface disturbed, clean stop on the signal that follows), and an interface that "
@@ -352,8 +356,9 @@ PROPS = {
     },
     "C11": {
         "parts": [
-            {"pkg": "internal/system", "files": ["system/zz_verif_policy_test.go"], "run": "TestVerif_C11", "patches": DIAL_PATCHES},
-            {"pkg": "internal/system", "files": ["system/zz_verif_policy_test.go"], "run": "TestVerif_C11sysctl", "patches": DIAL_PATCHES + SYSCTL_PATCHES},
+            {"pkg": "internal/system", "files": ["system/zz_verif_policy_test.go"], "run": "TestVerif_C11", "patches": DIAL_PATCHES, "shards": {"quick": 4, "thorough": 8}},
+            {"pkg": "internal/system", "files": ["system/zz_verif_policy_test.go"], "run": "TestVerif_C11sysctl", "patches": DIAL_PATCHES + SYSCTL_PATCHES, "shards": {"quick": 4, "thorough": 8}},
+            e2e_part("TestVerif_C11main"),
         ],
         "level": "fault_enumeration",
         "bubble": True,
